@@ -166,6 +166,18 @@ class Slicer:
                 self.counts.add(v)
                 out.append(f"{I}let {v} = args.len();")
                 k += 8
+            elif kind == "id" and t == "let" and k + 2 < n and (toks[k + 1][1] == "args" or (toks[k + 1][1] == "mut" and toks[k + 2][1] == "args")):
+                # a (re)binding of `args`: its length is unknown from here on
+                j = k + 1
+                while j < n and toks[j][1] != ";":
+                    j += 1
+                eq = k + 1
+                while eq < j and toks[eq][1] != "=":
+                    eq += 1
+                if eq + 1 < j:
+                    out.extend(self.slice_block(a + toks[eq + 1][2], a + toks[j - 1][3], ind))
+                out.append(f"{I}let args = havoc_args();")
+                k = j + 1
             elif kind == "id" and t == "let" and self._derived_let(toks, k, a):
                 k = self._derived_let(toks, k, a, out, I)
             elif kind == "id" and t == "if":
@@ -345,11 +357,15 @@ class Slicer:
         return out
 
 
-def slice_function(src, m, f, name):
-    """f: dict from rustlex.find_fn (start, end, body_open).  Returns (text, n_accesses)."""
+def slice_function(src, m, f, name, local=False):
+    """f: dict from rustlex.find_fn (start, end, body_open).  Returns (text, n_accesses).
+    local=True: `args` is a local of the function (bound by `let args = ..`), not a parameter."""
     s = Slicer(src, m)
     bo = f["body_open"]
     be = R.match_bracket(m, bo)
     body = s.slice_block(bo + 1, be, 1)
-    text = f"#[verifier::loop_isolation(false)]\n#[verifier::exec_allows_no_decreases_clause]\npub fn {name}(args: &[Node])\n{{\n" + "\n".join(body) + "\n}\n"
+    sig = f"pub fn {name}()" if local else f"pub fn {name}(args: &[Node])"
+    if local:
+        body = ["    let args = havoc_args();"] + body
+    text = f"#[verifier::loop_isolation(false)]\n#[verifier::exec_allows_no_decreases_clause]\n{sig}\n{{\n" + "\n".join(body) + "\n}\n"
     return text, s.accesses
